@@ -3,26 +3,29 @@ from ann import Overlay, ghost
 o = Overlay('/verif/contracts/algmod.rs')
 o.strip_ghost()
 LCSB = "alg == Algorithm::Lcs ==> ((old_range.end - old_range.start) <= u32::MAX || (new_range.end - new_range.start) <= u32::MAX),   // lcs table cells are u32"
-def contract(lv):
-    return (lambda t: t.replace('LVL', lv))('''
+# C03: Myers and LCS are optimal when no deadline can cut the search short; patience is not (it only anchors on unique items)
+def contract(lv, opt):
+    return (lambda t: t.replace('LVL', lv).replace('OPT', opt))('''
     requires diff_pre(*vstd::prelude::old(d), old, old_range, new, new_range, LVL),
         ''' + LCSB + '''
     ensures
         err_post(*vstd::prelude::old(d), *final(d), res),
-        seg_post(*vstd::prelude::old(d), *final(d), old, old_range, new, new_range, LVL, false, fin::<D>(), res.is_ok()),
+        seg_post(*vstd::prelude::old(d), *final(d), old, old_range, new, new_range, LVL, OPT, fin::<D>(), res.is_ok()),
 ''')
-for name, lv in (('pub fn diff<Old, New, D>(', 'alg_lvl(None)'), ('pub fn diff_deadline<Old, New, D>(', 'alg_lvl(deadline)')):
+for name, lv, opt in (('pub fn diff<Old, New, D>(', 'alg_lvl(None)', 'alg != Algorithm::Patience'),
+                      ('pub fn diff_deadline<Old, New, D>(', 'alg_lvl(deadline)', 'deadline is None && alg != Algorithm::Patience')):
     i = o.find(name)
-    o.before('{', contract(lv), start=i)
-def sl(lv):
+    o.before('{', contract(lv, opt), start=i)
+def sl(lv, opt):
     return '''
     requires diff_pre(*vstd::prelude::old(d), old, 0..old.len(), new, 0..new.len(), LVL),
         alg == Algorithm::Lcs ==> (old.len() <= u32::MAX || new.len() <= u32::MAX),
     ensures
         err_post(*vstd::prelude::old(d), *final(d), res),
-        seg_post(*vstd::prelude::old(d), *final(d), old, 0..old.len(), new, 0..new.len(), LVL, false, fin::<D>(), res.is_ok()),
-'''.replace('LVL', lv)
-for name, lv in (('pub fn diff_slices<D, T>(', 'alg_lvl(None)'), ('pub fn diff_slices_deadline<D, T>(', 'alg_lvl(deadline)')):
+        seg_post(*vstd::prelude::old(d), *final(d), old, 0..old.len(), new, 0..new.len(), LVL, OPT, fin::<D>(), res.is_ok()),
+'''.replace('LVL', lv).replace('OPT', opt)
+for name, lv, opt in (('pub fn diff_slices<D, T>(', 'alg_lvl(None)', 'alg != Algorithm::Patience'),
+                      ('pub fn diff_slices_deadline<D, T>(', 'alg_lvl(deadline)', 'deadline is None && alg != Algorithm::Patience')):
     i = o.find(name)
-    o.before('{', sl(lv), start=i)
+    o.before('{', sl(lv, opt), start=i)
 o.save()
